@@ -1914,7 +1914,7 @@ LEVEL_TEXT = ("Machine-checked Coq theorems (53 C06_* + 12 C18_cellspace_*, all 
               "implementation on random, corner and exhaustively enumerated small histories over all five space types, with an independent "
               "shadow-dictionary oracle that supplies failing inputs.")
 LEVEL_NOTE = ("The four defects found in this area (cell setter and FixedCell setter not atomic on a full cell, Grid2DMovingAgent.move stopping "
-              "half-way, FixedAgent.remove without a cell / remove_all_agents stopping half-way) are repaired by fix: commits in the repository; "
+              "half-way, FixedAgent.remove without a cell / remove_all_agents stopping half-way; plus the later fix making a second FixedAgent.remove a no-op) are repaired by fix: commits in the repository; "
               "the model follows the repaired code and no known finding remains. Theorems are about the model; the bridge lemmas tie 14 methods to "
               "the source text, the rest (class dispatch, Agent.remove, random draws, CellCollection construction, connect/disconnect) is hand "
               "transcription validated by the correspondence only. Connections are data read from the real space (C07 proves what they are). "
